@@ -98,7 +98,11 @@ func headerTampers() []tamper {
 			return true
 		}, false, false},
 		{"header.hash", func(e *chain.Entry) bool { e.Block.Hash = bump(e.Block.Hash); return true }, false, false},
-		{"header.hash+update.block-hash", func(e *chain.Entry) bool { e.Block.Hash = bump(e.Block.Hash); e.SU.BlockHash = e.Block.Hash; return true }, false, false},
+		{"header.hash+update.block-hash", func(e *chain.Entry) bool {
+			e.Block.Hash = bump(e.Block.Hash)
+			e.SU.BlockHash = e.Block.Hash
+			return true
+		}, false, false},
 		{"update.block-hash", func(e *chain.Entry) bool { e.SU.BlockHash = bump(e.SU.BlockHash); return true }, false, false},
 		{"update.new-root", func(e *chain.Entry) bool { e.SU.NewRoot = bump(e.SU.NewRoot); return true }, true, false},
 		{"update.old-root", func(e *chain.Entry) bool { e.SU.OldRoot = bump(e.SU.OldRoot); return true }, true, false},
@@ -260,7 +264,10 @@ func txTampers(idx int) []tamper {
 		t, _ := tx.(*core.DeployAccountTransaction)
 		return t
 	}
-	l1h := func(tx core.Transaction) *core.L1HandlerTransaction { t, _ := tx.(*core.L1HandlerTransaction); return t }
+	l1h := func(tx core.Transaction) *core.L1HandlerTransaction {
+		t, _ := tx.(*core.L1HandlerTransaction)
+		return t
+	}
 	v3 := func(tx core.Transaction) bool { return tx.TxVersion().Is(3) }
 	out := []tamper{
 		// the committed hash itself (all kinds, incl. deploy v0 / declare v0 whose field hashes are not recomputable)
@@ -545,7 +552,10 @@ func receiptTampers(idx int) []tamper {
 		}, false, false}
 	}
 	return []tamper{
-		mk("tx-hash", func(r *core.TransactionReceipt, _ *chain.Entry) bool { r.TransactionHash = bump(r.TransactionHash); return true }),
+		mk("tx-hash", func(r *core.TransactionReceipt, _ *chain.Entry) bool {
+			r.TransactionHash = bump(r.TransactionHash)
+			return true
+		}),
 		mk("fee", func(r *core.TransactionReceipt, _ *chain.Entry) bool { r.Fee = bump(r.Fee); return true }),
 		mk("reverted-flag", func(r *core.TransactionReceipt, _ *chain.Entry) bool {
 			r.Reverted = !r.Reverted
@@ -1213,6 +1223,7 @@ func TestCheck(t *testing.T) {
 		}
 	})
 	runFixtures(t, r, tampers, distinct, &mu)
+	runIsolated(t, r, tampers)
 	r.Set("distinct_nontrivial", int64(len(distinct)))
 	r.Set("catalogue_applicable", int64(len(applicable)))
 	var na []string
